@@ -529,5 +529,5 @@ RULES = [
     Rule("C02.TABLE.unify", ("C02", "C13", "C12", "C15", "C01"), r_unify_table),
     Rule("C02.minimize-terms", ("C02", "C05", "C01", "C04"), r_minimize_terms),
     Rule("C01.api-interface", ("C01",), r_api_interface),
-] + [Rule(f"C01.api.{cname}", ("C01", prop) + (("C07",) if cname == "UnusedTranslator" else ()), _api_pass(cname),
+] + [Rule(f"C01.api.{cname}", ("C01", prop) + (("C07",) if cname == "UnusedTranslator" else ()) + (("C06",) if cname not in ("UnusedTranslator", "InlineTranslator") else ()), _api_pass(cname),
          extra={"C03": ("(prg=...)",), **({"C20": ("(prg=...)",)} if cname in DOMAIN_USERS else {})}) for cname, prop in PASS_PROPS.items()]
